@@ -1,8 +1,8 @@
 #!/bin/sh
-# tools/confirm_seed2.sh <ID>   -- round 2: confirms /tmp/seed/out2_<ID>/<i> in a scratch worktree at /repo's HEAD
+# [ROUND=3] tools/confirm_seed2.sh <ID>   -- round 2 (default) or later: confirms /tmp/seed/out2_<ID>/<i> in a scratch worktree at /repo's HEAD
 # (/tmp/seed/wtx, created on demand) and copies confirmed seeds to /verif/seeded/<ID>-r2-<i>/.
 # A patch made against an older commit is tried with --3way; the stored patch.diff is always relative to HEAD.
-ID="$1"; WT=/tmp/seed/wtx_$ID; OUT=/tmp/seed/out2_$ID
+ID="$1"; R="${ROUND:-2}"; WT=/tmp/seed/wtx_$ID; OUT=/tmp/seed/out${R}_$ID
 [ -d "$WT" ] || git -C /repo worktree add -q --detach "$WT" HEAD
 cd "$WT" || exit 1
 git checkout -q --detach "$(git -C /repo rev-parse HEAD)"; git checkout -q -- . ; git clean -fdq
@@ -10,28 +10,28 @@ for d in "$OUT"/*/; do
   i=$(basename "$d")
   [ -f "$d/patch.diff" ] || continue
   cp "$d/demo.py" "$WT/demo_seed.py"
-  PYTHONPATH=$WT /venv/bin/python demo_seed.py >/tmp/seed/confirm2_${ID}_$i.clean.log 2>&1; rc_clean=$?
+  PYTHONPATH=$WT /venv/bin/python demo_seed.py >/tmp/seed/confirm${R}_${ID}_$i.clean.log 2>&1; rc_clean=$?
   # --3way first: it locates the hunk through the recorded blob, a plain apply may fuzz it into a sibling function
   if git apply --3way "$d/patch.diff" >/dev/null 2>&1; then git reset -q
   else
     git reset -q --hard
-    if ! git apply "$d/patch.diff" 2>/dev/null; then echo "$ID-r2-$i: PATCH DOES NOT APPLY"; git checkout -q -- .; continue; fi
+    if ! git apply "$d/patch.diff" 2>/dev/null; then echo "$ID-r$R-$i: PATCH DOES NOT APPLY"; git checkout -q -- .; continue; fi
   fi
-  git diff -- . ':!demo_seed.py' > /tmp/seed/confirm2_${ID}_$i.diff
-  PYTHONPATH=$WT /venv/bin/python demo_seed.py >/tmp/seed/confirm2_${ID}_$i.mut.log 2>&1; rc_mut=$?
+  git diff -- . ':!demo_seed.py' > /tmp/seed/confirm${R}_${ID}_$i.diff
+  PYTHONPATH=$WT /venv/bin/python demo_seed.py >/tmp/seed/confirm${R}_${ID}_$i.mut.log 2>&1; rc_mut=$?
   suite=$(PYTHONPATH=$WT /venv/bin/python -m pytest -q -p no:cacheprovider --timeout=900 2>&1 | grep -E "passed|failed" | tail -1)
   git checkout -q -- . ; rm -f demo_seed.py
   ok=no
   case "$suite" in *failed*) ;; *"131 passed, 1 skipped"*) [ "$rc_clean" = 0 ] && [ "$rc_mut" != 0 ] && ok=yes;; esac
-  echo "$ID-r2-$i: demo clean rc=$rc_clean mutated rc=$rc_mut suite='$suite' confirmed=$ok"
+  echo "$ID-r$R-$i: demo clean rc=$rc_clean mutated rc=$rc_mut suite='$suite' confirmed=$ok"
   if [ "$ok" = yes ]; then
-    T=/verif/seeded/$ID-r2-$i
+    T=/verif/seeded/$ID-r$R-$i
     mkdir -p $T
-    cp /tmp/seed/confirm2_${ID}_$i.diff $T/patch.diff; cp "$d/demo.py" $T/
-    /venv/bin/python - "$d/meta.json" $T/meta.json "$suite" <<'PY'
+    cp /tmp/seed/confirm${R}_${ID}_$i.diff $T/patch.diff; cp "$d/demo.py" $T/
+    /venv/bin/python - "$d/meta.json" $T/meta.json "$suite" "$R" <<'PY'
 import json,sys
 m=json.load(open(sys.argv[1]))
-m["round"]=2
+m["round"]=int(sys.argv[4])
 m["confirmed"]={"ran":["demo.py on clean worktree -> exit 0","git apply patch.diff; demo.py -> non-zero exit","pytest -q -p no:cacheprovider --timeout=900 with the patch applied"],"suite_result":sys.argv[3]}
 json.dump(m,open(sys.argv[2],"w"),indent=1)
 PY
